@@ -80,8 +80,21 @@ static void one_sort(Rng& rng, size_t n, int shape, bool big) {
         size_t live0 = T::tracked ? verif::Ledger::get().live_count() : 0;
         tlx::MultiwayMergeSplittingAlgorithm mwmsa = sampling ? tlx::MWMSA_SAMPLING : tlx::MWMSA_EXACT;
         E* b = v->data();
+#ifdef VERIF_DSCHED
+        static std::string scen;
+        scen = what;
+        dsched::S().context = stable ? "stable_parallel_mergesort" : "parallel_mergesort";
+        dsched::S().on_deadlock = []() { fprintf(stderr, "scenario: %s\n", scen.c_str()); };
+        dsched::S().begin(rng.next(), (int)rng.below(dsched::STRATEGIES));
+#endif
         if (stable) { if (desc) tlx::stable_parallel_mergesort(b, b + n, typename T::Greater(), threads, mwmsa); else tlx::stable_parallel_mergesort(b, b + n, typename T::Less(), threads, mwmsa); }
         else { if (desc) tlx::parallel_mergesort(b, b + n, typename T::Greater(), threads, mwmsa); else tlx::parallel_mergesort(b, b + n, typename T::Less(), threads, mwmsa); }
+#ifdef VERIF_DSCHED
+        {
+            dsched::Stats st = dsched::S().end();
+            if (dsched::S().serial()) { verif::distinct(st.hash); verif::count("schedule_steps", st.steps); verif::count("controlled_schedules"); }
+        }
+#endif
         if (T::tracked) {
             size_t live1 = verif::Ledger::get().live_count();
             if (live1 != live0) verif::fail("C06:lifetime:temporaries-alive-after-return", what + ": " + std::to_string(live1 - live0 > live1 ? 0 : live1 - live0) + " temporary element copies are still alive after the sort returned (" + std::to_string(live0) + " -> " + std::to_string(live1) + ")");
@@ -136,5 +149,11 @@ static void run_case(Rng& rng, uint64_t) {
 static void init() {
     verif::property_id() = "C06";
     verif::Ledger::get().prop = "C06";
+#ifdef VERIF_DSCHED
+    // unit built with the scheduler shims: the sort's threads and its mutex barrier run under
+    // controlled schedules, so a thread that never reaches a barrier is detected as a deadlock
+    dsched::S().mode = verif::param("mode", "serial") == "serial" ? dsched::SERIAL : dsched::JITTER;
+    dsched::S().prop = "C06";
+#endif
 }
 VERIF_MAIN_INIT(run_case, init)
